@@ -9,6 +9,7 @@ def explore(run, lean):
     # "one wake-up token per pending event when idle" also has to survive posters racing the consumer
     conc_corr.explore(run, "C16", 40 if quick else 1000, escalate=bool(lean.get("broken")))
     conc_corr.explore_clear_race(run, 40 if quick else 1000)
+    conc_corr.explore_posters_only(run, "C16", 60 if run.tier == "quick" else 1500)
     run.extra["rule"] = ("(a) random queued charts whose handlers post/defer/recall, capacities 1-4 and 500, scripts of 3-14 client ops; "
                          "(b) random single-thread operation sequences (append, appendleft, pop, popleft, clear, len) on a real "
                          "LockingDeque at capacities 1-5 and 500, biased to full queues; every operation compared with the Lean "
